@@ -81,3 +81,23 @@ fn c14_waitgroup() {
     kani::cover!(n == 2 && r2.is_pending(), "still waiting for a token");
     std::mem::forget(t1); std::mem::forget(t2);
 }
+
+// @harness name=c10_lock_future props=C10,C99 tier=quick timeout=900 rmbody=nowaiters unwindset=drop_glue::<.slab::Entry<.*>.>$:2
+// @bound one uncontended mutex: RepeatableLockFuture polled twice yields the guard both times (repeatable), the mutex stays locked while the future lives and is free after it is dropped
+// @functions RepeatableLockFuture::{new,poll}, futures_util::lock::Mutex::lock_owned
+#[kani::proof]
+#[kani::unwind(4)]
+fn c10_lock_future() {
+    let m = Arc::new(Mutex::new(7u32));
+    let waker = counting_waker();
+    let mut cx = Context::from_waker(&waker);
+    {
+        let mut f = RepeatableLockFuture::new(m.clone());
+        match Pin::new(&mut f).poll(&mut cx) { Poll::Ready(v) => { assert!(*v == 7); *v = 8; } Poll::Pending => panic!("uncontended lock must be granted at once") }
+        assert!(m.try_lock().is_none(), "C10: mutex not held while the lock future is alive");
+        match Pin::new(&mut f).poll(&mut cx) { Poll::Ready(v) => assert!(*v == 8, "repeated poll must yield the same guard"), Poll::Pending => panic!("repeated poll must stay ready") }
+    }
+    match m.try_lock() { Some(g) => { assert!(*g == 8); std::mem::forget(g); } None => panic!("C10: mutex still locked after the lock future was dropped") }
+    kani::cover!(true, "lock taken and released");
+    std::mem::forget(m);
+}
